@@ -130,7 +130,20 @@ def do_case(args):
         w = {k: (v if not isinstance(v, dict) else {n: repr(c)[:60] for n, c in v.items()})
              for k, v in case.items()}
         b.case(('gentest', repr(sorted(w.items()))))
-        before = snapshot(work, skip=('ref', script_name, '__pycache__'))
+        # "its reference directory" is ref/<name>, <name> being the script's name without 'test', one '_' and '.py';
+        # the reference directories of other generated tests (names that differ only in underscores, and an unrelated
+        # one) already exist beside it and are files that already existed like any other
+        stem = script_name[4:-3]
+        own = stem[1:] if stem.startswith('_') else stem
+        refroot = os.path.join(work, 'ref')     # the reference directory is made in the working directory
+        for other in sorted({own.lstrip('_'), '_' + own, own.rstrip('_'), own + '_', 'earlier_test'} - {own, ''}):
+            os.makedirs(os.path.join(refroot, other), exist_ok=True)
+            for fn in ('STDOUT', 'keep.txt'):
+                with open(os.path.join(refroot, other, fn), 'w') as f:
+                    f.write('reference of test_%s\n' % other)
+        own_ref = os.path.join('ref', own)
+        skip = (own_ref, os.path.join(os.path.dirname(case['script']), script_name), script_name, '__pycache__')
+        before = snapshot(work, skip=skip)
         ok, err = gen(work, case)
         b.check('C11.generation-completes', ok, w, err)
         if not ok:
@@ -147,7 +160,7 @@ def do_case(args):
             comp = False
         b.check('C11.script-compiles', comp, w)
         b.check('C11.reference-directory-written', os.path.isdir(os.path.join(work, 'ref')), w)
-        after = snapshot(work, skip=('ref', script_name, '__pycache__'))
+        after = snapshot(work, skip=skip)
         b.check('C11.existing-files-untouched', before == after, w,
                 'changed %r removed %r added %r' % (
                     sorted(k for k in before if k in after and after[k] != before[k]),
@@ -256,6 +269,12 @@ def gen_cases(tier, seed):
     for i, (files, refs) in enumerate(filesets):
         cases.append(dict(out='made files\n', err='', code=0, files=files, refs=refs, script='test_f%d' % i, iterations=2))
     cases.append(dict(out='fails\n', err='bad\n', code=3, files={}, refs=[], script='test_x1', iterations=2))
+    # script names with more than one underscore after 'test' (the default name for a command such as ./run.sh is
+    # test___run_sh.py) and with none: the reference directories of the neighbouring names are other tests' files
+    cases.append(dict(out='uu\n', err='', code=0, files={'o.txt': 'x\n'}, refs=['o.txt'], script='test__uu', iterations=2))
+    cases.append(dict(out='uuu\n', err='', code=0, files={}, refs=[], script='test___run_sh.py', iterations=1))
+    cases.append(dict(out='nu\n', err='', code=0, files={}, refs=[], script='testnu', iterations=2))
+    cases.append(dict(out='tu\n', err='', code=0, files={}, refs=[], script='test_tu_', iterations=2))
     # a pattern that matches a directory (recorded finding: only directories named explicitly are expanded)
     cases.append(dict(out='made a directory\n', err='', code=0, files={'outdir/a.txt': 'in a directory\n'}, refs=['out*'],
                       script='test_globdir', iterations=2, glob_matches_directory=True))
